@@ -289,7 +289,8 @@ static void add_parens_between(Chunk *first, Chunk *last)
    shift_the_rest_of_the_line(last);                         // Issue #3236
 
    for (Chunk *tmp = first_n;
-        tmp != last_prev;
+        (  tmp != last_prev
+        && tmp->IsNotNullChunk());               // 'last' may not follow 'first' in broken code
         tmp = tmp->GetNextNcNnl())
    {
       tmp->SetLevel(tmp->GetLevel() + 1);
